@@ -18,9 +18,9 @@ def equal_delegations(W):
     st.add(W.del_amounts[0] >= 10 ** 6, W.D == W.Bb + W.Bs, W.now - W.last_unbonded > W.epoch)
 
 
-def mk(op, nv, nd, shape=None):
+def mk(op, nv, nd, shape=None, fixed=None):
     def ob(ctx):
-        W = HubWorld(ctx, n_validators=nv, n_delegations=nd)
+        W = HubWorld(ctx, n_validators=nv, n_delegations=nd, fixed=fixed)
         W.install()
         if shape is not None:
             shape(W)
@@ -96,6 +96,8 @@ for _op in ['unbond_bsei', 'unbond_stsei']:
     for _nd in (1, 2):        # 3 delegation entries exceed the executor's block budget (undelegation plan: 3 passes x 3 entries)
         OBLIGATIONS.append(('%s_d%d' % (_op, _nd), mk(_op, 1, _nd)))
 OBLIGATIONS.append(('unbond_bsei_d8_equal', mk('unbond_bsei', 1, 8, shape=equal_delegations)))
+# the same with 12 entries of a concrete equal stake (constant-folded by the executor)
+OBLIGATIONS.append(('unbond_bsei_d12_fixed', mk('unbond_bsei', 1, 12, shape=equal_delegations, fixed={'deleg_%d' % i: 10 ** 9 for i in range(12)})))
 for _op in ['convert_bsei', 'convert_stsei', 'check_slashing']:
     OBLIGATIONS.append(('%s_d1' % _op, mk(_op, 1, 1)))
 
@@ -110,7 +112,7 @@ OBLIGATIONS.append(('index_update_d1', _index_update))
 
 
 def tier_filter(name, tier):
-    return tier == 'thorough' or not (name.endswith('_v3') or name.endswith('_d3') or name.endswith('_d2'))
+    return tier == 'thorough' or not (name.endswith('_v3') or name.endswith('_d3') or name.endswith('_d2') or name.endswith('_d12_fixed'))
 
 
 def replay_any(v, run_scenario):
